@@ -13,14 +13,18 @@ AccSame  == {Acc(0, 0, 0, 1, TRUE), Acc(0, 0, 0, 8, FALSE)}
 JoinToks == {"if", "else", "end", "call"}
 JoinToksT == {"if", "else", "end", "call", "loop", "endloop", "grow"}
 S4 == {4}
+(* a memory that starts EMPTY: nothing can be accessed before it has grown, but a zero-length fill names it *)
+S0 == {0}
+EmptyToks == {"touch", "call", "callgrow", "grow"}
 (* Dimensions the driver adds to every program (not part of the token alphabet):
    Provenances  where the two address values come from: "param" (the caller), "const" (constants in the body), "narrow" (a
                 sign-extending 16-bit load inside the function, for addresses that are the sign extension of their low half), "wrap"
                 (i32.wrap_i64 of a 64-bit value whose upper half is a marker);
-   MemKinds     "own" (defined by the module) or "imported" (defined by another module);
+   MemKinds     "own" (defined by the module) or "imported" (defined by another module), "shared" (own, shared between threads: its buffer is allocated
+                for the declared maximum at once);
    CalleeKinds  what call / callgrow call: functions of the module, imported host functions, host functions that re-enter. *)
 Provenances == {"param", "const", "narrow", "wrap"}
-MemKinds == {"own", "imported"}
+MemKinds == {"own", "imported", "shared"}
 S13 == {1, 3}
 S1 == {1}
 S3 == {3}
